@@ -129,6 +129,11 @@ func expr(e ast.Expr) string {
 			fail("unsupported field %s", x.Sel.Name)
 		}
 		return "(" + expr(x.X) + ")." + f
+	case *ast.UnaryExpr:
+		if x.Op == token.NOT {
+			return "(!" + expr(x.X) + ")"
+		}
+		fail("unsupported unary operator %s", x.Op)
 	case *ast.BinaryExpr:
 		switch x.Op {
 		case token.LAND:
@@ -233,6 +238,8 @@ func expr(e ast.Expr) string {
 				return "(GoSem.intEq " + recv + " " + args(x.Args) + ")"
 			case "After":
 				return "(GoSem.timeAfter " + recv + " " + args(x.Args) + ")"
+			case "Before":
+				return "(GoSem.timeBefore " + recv + " " + args(x.Args) + ")"
 			case "TotalTokensWithAsset":
 				return "(← TotalTokensWithAsset " + recv + " " + args(x.Args) + ")"
 			case "TotalDelegationSharesWithDenom":
@@ -464,7 +471,12 @@ func translateArith(repo, out string) {
 			body += translateFunc(fd) + "\n"
 		}
 	}()
-	_ = os.WriteFile(out, []byte(header+body+guardFacts(repo)+skeletonFacts(repo)+keyFacts(repo)+genesisFacts(repo)+"end Generated\nend Alliance\n"), 0o644)
+	_ = os.WriteFile(out, []byte(header+body+"end Generated\nend Alliance\n"), 0o644)
+	// the pinned source-text tables go to a file of their own: a function the translator cannot handle breaks the arithmetic
+	// ties only, not the properties that pin guards, hook bodies, the end blocker, keys or genesis code
+	tables := "/- GENERATED by astfacts/translate.go from the current /repo source on every run of bin/check. Do not edit. -/\n" +
+		"namespace Alliance\nnamespace Generated\n\n"
+	_ = os.WriteFile(filepath.Join(filepath.Dir(out), "Tables.lean"), []byte(tables+guardFacts(repo)+skeletonFacts(repo)+keyFacts(repo)+genesisFacts(repo)+"end Generated\nend Alliance\n"), 0o644)
 }
 
 // guardFacts: for every method of keeper.MsgServer, the conditions of its top-level validation guards (an `if` whose
